@@ -1323,7 +1323,8 @@ func (r *Resolvable) walkObject(obj *Object, parent *astjson.Value) (hasError bo
 	isRoot := r.depth < 2
 	defer r.popNodePathElement(obj.Path)
 	if value.Type() != astjson.TypeObject {
-		r.addError("Object cannot represent non-object value.", obj.Path)
+		// obj.Path is already on r.path
+		r.addError("Object cannot represent non-object value.", nil)
 		return r.err()
 	}
 
@@ -1857,7 +1858,8 @@ func (r *Resolvable) walkArray(arr *Array, value *astjson.Value) bool {
 	r.pushNodePathElement(arr.Path)
 	defer r.popNodePathElement(arr.Path)
 	if value.Type() != astjson.TypeArray {
-		r.addError("Array cannot represent non-array value.", arr.Path)
+		// arr.Path is already on r.path
+		r.addError("Array cannot represent non-array value.", nil)
 		return r.err()
 	}
 	if r.render() {
